@@ -182,6 +182,11 @@ func (f *filler) fill(v reflect.Value) {
 				w[i] = f.word(i)
 			}
 			f.words += n
+		case reflect.Int64:
+			for i := 0; i < n; i++ {
+				open(v.Index(i)).SetInt(-int64(f.word(i)))
+			}
+			f.words += n
 		case reflect.Float64:
 			for i := 0; i < n; i++ {
 				open(v.Index(i)).SetFloat(-float64(f.word(i)) * 1e3)
